@@ -78,6 +78,16 @@ namespace cnl {
     }
 
     // cnl::fraction comparison
+    namespace _impl {
+        // cross-multiplication reverses the order iff exactly one denominator is negative
+        template<typename LhsDenominator, typename RhsDenominator>
+        [[nodiscard]] constexpr auto cross_product_reverses_order(
+                LhsDenominator const& lhs, RhsDenominator const& rhs)
+        {
+            return (lhs < LhsDenominator{}) != (rhs < RhsDenominator{});
+        }
+    }
+
     template<
             typename LhsNumerator, typename LhsDenominator, typename RhsNumerator,
             typename RhsDenominator>
@@ -105,7 +115,9 @@ namespace cnl {
             fraction<LhsNumerator, LhsDenominator> const& lhs,
             fraction<RhsNumerator, RhsDenominator> const& rhs)
     {
-        return lhs.numerator * rhs.denominator < rhs.numerator * lhs.denominator;
+        return _impl::cross_product_reverses_order(lhs.denominator, rhs.denominator)
+                     ? lhs.numerator * rhs.denominator > rhs.numerator * lhs.denominator
+                     : lhs.numerator * rhs.denominator < rhs.numerator * lhs.denominator;
     }
 
     template<
@@ -115,7 +127,9 @@ namespace cnl {
             fraction<LhsNumerator, LhsDenominator> const& lhs,
             fraction<RhsNumerator, RhsDenominator> const& rhs)
     {
-        return lhs.numerator * rhs.denominator > rhs.numerator * lhs.denominator;
+        return _impl::cross_product_reverses_order(lhs.denominator, rhs.denominator)
+                     ? lhs.numerator * rhs.denominator < rhs.numerator * lhs.denominator
+                     : lhs.numerator * rhs.denominator > rhs.numerator * lhs.denominator;
     }
 
     template<
@@ -125,7 +139,9 @@ namespace cnl {
             fraction<LhsNumerator, LhsDenominator> const& lhs,
             fraction<RhsNumerator, RhsDenominator> const& rhs)
     {
-        return lhs.numerator * rhs.denominator <= rhs.numerator * lhs.denominator;
+        return _impl::cross_product_reverses_order(lhs.denominator, rhs.denominator)
+                     ? lhs.numerator * rhs.denominator >= rhs.numerator * lhs.denominator
+                     : lhs.numerator * rhs.denominator <= rhs.numerator * lhs.denominator;
     }
 
     template<
@@ -135,7 +151,9 @@ namespace cnl {
             fraction<LhsNumerator, LhsDenominator> const& lhs,
             fraction<RhsNumerator, RhsDenominator> const& rhs)
     {
-        return lhs.numerator * rhs.denominator >= rhs.numerator * lhs.denominator;
+        return _impl::cross_product_reverses_order(lhs.denominator, rhs.denominator)
+                     ? lhs.numerator * rhs.denominator <= rhs.numerator * lhs.denominator
+                     : lhs.numerator * rhs.denominator >= rhs.numerator * lhs.denominator;
     }
 
 #if defined(CNL_IOSTREAMS_ENABLED)
